@@ -542,12 +542,13 @@ extern "C" int sched_yield(void) noexcept {
 
 extern "C" int clock_gettime(clockid_t clk, struct timespec* ts) noexcept {
   if (verif::ip::registered()) {
-    uint64_t t = verif::ip::vtime();
     // calendar clocks can be stepped by the client program (NTP step, date -s, VM resume); monotonic ones cannot
+    int64_t t = (int64_t)verif::ip::vtime() + 1000000ll * 1000000000ll;   // epoch of the virtual clocks: 10^6 s
     if (clk == CLOCK_REALTIME || clk == CLOCK_REALTIME_COARSE || clk == CLOCK_REALTIME_ALARM || clk == CLOCK_TAI)
-      t = (uint64_t)((int64_t)t + verif::ip::wall_offset());
-    ts->tv_sec = 1000000 + (time_t)(t / 1000000000ull);
-    ts->tv_nsec = (long)(t % 1000000000ull);
+      t += verif::ip::wall_offset();
+    if (t < 0) t = 0;
+    ts->tv_sec = (time_t)(t / 1000000000ll);
+    ts->tv_nsec = (long)(t % 1000000000ll);
     return 0;
   }
   return (int)raw_syscall6(SYS_clock_gettime, clk, (long)ts, 0, 0, 0, 0);
